@@ -727,6 +727,13 @@ func (ce *callEngine) callNativeFunc(ctx context.Context, m *wasm.ModuleInstance
 			if err := m.FailIfClosed(); err != nil {
 				panic(err)
 			}
+			// The module closed on context cancellation is the one this call engine was created for (see call),
+			// which is not m when the loop sits in a function called by an imported function.
+			if cm := ce.f.moduleInstance; cm != m {
+				if err := cm.FailIfClosed(); err != nil {
+					panic(err)
+				}
+			}
 			frame.pc++
 		case operationKindUnreachable:
 			panic(wasmruntime.ErrRuntimeUnreachable)
